@@ -46,7 +46,8 @@ struct World {
                         // 3 hand out callbacks and invoke the first one re-entrantly inside start
   int complete_on = 1;  // the k-th callback event completes with its argument
   int stop_action = 0;  // 0 set_done, 1 ignore, 2 set_error
-  int stop_mode = 0;    // 0 none, 1 before start, 2 racing (after yields), 3 right after start returned
+  int stop_mode = 0;    // 0 none, 1 before start, 2 racing (after yields), 3 right after start returned,
+                        // 4 from inside the start handler, 5 from inside the first callback handler (re-entrant stop)
   int stop_yields = 0;
   int nsrc = 1;
   Source src[kMaxSrc];
@@ -122,6 +123,7 @@ struct Body {
       }
     }
     w->armed = 1;
+    if (w->stop_mode == 4) { usim_probe("stop requested from inside the start handler"); w->rec.request_stop(); }
     if (w->start_mode == 3 && w->src[0].kind <= 1) {
       // an event source that calls back synchronously from inside start()
       { usim::np_scope np; ++w->src[0].fired; }
@@ -135,6 +137,7 @@ struct Body {
     int n;
     { usim::np_scope np; n = ++w->cb_events; fin = w->body_finished; }
     KIT_CHECK(!fin, "c19.touch-after-winner", "callback event %d delivered although the body had already completed the operation", n);
+    if (w->stop_mode == 5 && n == 1) { usim_probe("stop requested from inside a callback handler"); w->rec.request_stop(); }
     if (n >= w->complete_on) { note_first<Op>(w, CH_VALUE, v); op.set_value(v); }
   }
   template <class Op>
@@ -266,8 +269,8 @@ void body_create(void*) {
     if (!s.errback && !s.late) total_cb_fires += s.fires;
   }
   w->stop_action = draw(4) == 0 ? 1 : draw(5) == 0 ? 2 : 0;
-  int st = draw(8);
-  w->stop_mode = st < 2 ? 0 : st < 3 ? 1 : st < 7 ? 2 : 3;
+  int st = draw(11);
+  w->stop_mode = st < 2 ? 0 : st < 3 ? 1 : st < 7 ? 2 : st < 8 ? 3 : st < 10 ? 4 : 5;
   w->stop_yields = draw_small(14);
   if (unsafe) {
     // contract of unsafe callbacks: never invoked once the operation has completed. One source, one shot,
@@ -300,6 +303,13 @@ void body_create(void*) {
       w->src[0].late = true;
       total_cb_fires = 1;
     } else if (w->stop_mode == 3) w->stop_mode = 0;
+    if (w->stop_mode == 4 && w->stop_action != 1 && w->variant != 1 && w->start_mode != 1 && w->start_mode != 2) {
+      // the stop requested from inside the start handler completes the operation: nobody else may be in flight
+      stop_completes = true;
+      w->src[0].late = true;
+      if (w->start_mode == 3) w->start_mode = 0;
+      total_cb_fires = 1;
+    }
     if (w->src[0].fires == 2 && (draw(2) || w->start_mode == 3)) { w->src[0].fires = 1; total_cb_fires = 1; }
   }
   if (w->start_mode == 3 && w->src[0].kind > 1) w->start_mode = 0;
